@@ -77,7 +77,7 @@ func (v *VMValue) ToJSONRaw(save map[*VMValue]bool) ([]byte, error) {
 		save[v] = true
 		cd := v.MustReadDictData()
 
-		dictJson, err := cd.Dict.ToJSON()
+		dictJson, err := cd.Dict.toJSONRaw(save)
 		if err != nil {
 			return nil, err
 		}
